@@ -47,7 +47,7 @@ fn main() {
                 _ => Mode::Append,
             };
             let chunks: Vec<usize> = args[5..].iter().map(|s| s.parse().unwrap()).collect();
-            rustradio::verif::set_default_stream_size(Some(4096));
+            rustradio::verif::set_default_stream_size(Some(4 * 4096));
             UNIT.store(if args[4] == "stream" { 4 } else { 5 }, std::sync::atomic::Ordering::SeqCst);
             rustradio::verif::set_consume_hook(Some(on_consume));
             let mut total = 0usize;
@@ -74,7 +74,7 @@ fn main() {
                     // work() until it has consumed everything.
                     loop {
                         sink.work().unwrap();
-                        if w.free() == 1024 {
+                        if w.free() == 4096 {
                             break;
                         }
                     }
